@@ -33,6 +33,7 @@ void vp_op_begin(uint32_t) {}
 void vp_op_end(uint32_t) {}
 void vp_thread_exit(void) {}
 bool vp_alive(const void*) { return true; }
+uint64_t vp_heap_allocs(void) { return 0; }
 void vp_nop(void) {}
 void vp_setup(void) __attribute__((weak));
 void vp_thread1(void) __attribute__((weak));
